@@ -655,3 +655,24 @@ func init() {
 		What:   "MTU plumbing: NewUnderlayProperties and newBaseUnderlay report exactly the MTU they were configured with, for every supported value incl. the boundaries 1280 and 1500 (the fragment / padding arithmetic of H14.1 and the datagram bound of H14.2 are stated in terms of that number)",
 		Bounds: "MTU 1280..1500, both transports", Outside: "how the CLI / appctl layers obtain the number from the configuration"})
 }
+
+func init() {
+	r := map[string]string{
+		"github.com/google/btree.NewG":                           "vTreeNew",
+		"(*github.com/google/btree.BTreeG[T]).Len":               "vTreeLen",
+		"(*github.com/google/btree.BTreeG[T]).ReplaceOrInsert":   "vTreeReplaceOrInsert",
+		"(*github.com/google/btree.BTreeG[T]).Min":               "vTreeMin",
+		"(*github.com/google/btree.BTreeG[T]).Max":               "vTreeMax",
+		"(*github.com/google/btree.BTreeG[T]).DeleteMin":         "vTreeDeleteMin",
+		"(*github.com/google/btree.BTreeG[T]).Clear":             "vTreeClear",
+		"(*github.com/google/btree.BTreeG[T]).Ascend":            "vTreeAscend",
+		"(*github.com/enfein/mieru/v3/pkg/protocol.Session).output": "vStubOutput",
+		"github.com/enfein/mieru/v3/pkg/metrics.RegisterMetric":  "vStubRegisterMetric",
+		"(*github.com/enfein/mieru/v3/pkg/replay.ReplayCache).IsDuplicate": "vStubIsDuplicateFirst",
+		"(*github.com/enfein/mieru/v3/pkg/protocol.PacketUnderlay).serverTryDecryptMetadataForNewSession": "vStubNewSessionDiscovery",
+	}
+	reg("C06", HarnessDef{ID: "H6.2b", ReplayPatches: []SrcPatch{{File: "pkg/protocol/metadata.go", Old: "time.Now()", New: "vNow()", All: true}},
+		Spec: HarnessSpec{Name: "vH_C06_packet_replay", Pkg: "pkg/protocol", LoopBound: 8, LoopBounds: map[string]int{"closeWithError": 1001, "readOneSegment": 2}, ClockMin: 1900000000, ClockMax: 1900000001, TimeoutS: 120, Par: 4, Redirects: r},
+		What:   "real PacketUnderlay.readOneSegment at a UDP server without a session for the source: one 72-byte datagram that the replay cache reports (same bytes seen from another address) and that still decrypts as a new session - open request, data, ack or close request (type and lengths concrete per case, every other field arbitrary) - is dropped: nothing passed on, nothing sent, no session",
+		Bounds: "4 segment types, metadata-only datagrams", Outside: "replay cache answer fixed to 'seen' (its own law is H6.1); discovery replaced by its outcome with scripted metadata; decrypt oracle"})
+}
